@@ -4185,6 +4185,13 @@ EmitModSib:
         uint64_t base_address = code()->base_address();
         uint64_t section_offset = _section->offset();
 
+        // TSIB (AMX) requires SIB byte, which is not used by RIP-relative addressing - only absolute address is possible.
+        if (common_info->is_tsib_op()) {
+          if (ASMJIT_UNLIKELY(addr_type == Mem::AddrType::kRel))
+            goto InvalidAddress;
+          addr_type = Mem::AddrType::kAbs;
+        }
+
         // If relative addressing was not explicitly set then we can try to guess. By guessing we check some
         // properties of the memory operand and try to base the decision on the segment prefix and the address type.
         if (addr_type == Mem::AddrType::kDefault) {
@@ -4293,6 +4300,10 @@ EmitModSib:
     }
     // ==========|> [LABEL|RIP + DISP32]
     else {
+      // TSIB (AMX) requires SIB byte, which is not used by RIP-relative addressing.
+      if (ASMJIT_UNLIKELY(common_info->is_tsib_op()))
+        goto InvalidAddress;
+
       writer.emit8(encode_mod(0, op_reg, 5));
 
       if (is_32bit()) {
